@@ -222,6 +222,35 @@ def check(ctx: C.Ctx, cases, with_rc4: bool = True) -> None:
                 add("getobj %s %d %d %s" % (loc, n, g, " ".join(toks)), got,
                     ("getobj", dict(base, objid=n, password=[ord(c) for c in pw])),
                     (lambda t, fl=flate: " ".join(post_model_stream(t.split(" "), fl))))
+            # cipher-call trace: model's instrumented traversal == the calls pdfminer really makes
+            calls: List[Tuple[int, str]] = []
+            try:
+                doc2 = c10.open_impl(wr.data, pw, caching=False)
+                orig = doc2.decipher
+
+                def spy(objid, genno, data, attrs=None, _orig=orig):
+                    if attrs is None:
+                        calls.append((objid, "s:" + hx(data)))
+                    else:
+                        t = attrs.get("Type")
+                        meta = t is not None and getattr(t, "name", None) == "Metadata"
+                        calls.append((objid, ("m:" if meta else "p:") + hx(data)))
+                    return _orig(objid, genno, data, attrs)
+                doc2.decipher = spy
+            except Exception:  # noqa: BLE001
+                doc2 = None
+            if doc2 is not None:
+                for n, (g, loc, v) in sorted(wr.stored.items()):
+                    del calls[:]
+                    try:
+                        o = doc2.getobj(n)
+                        if hasattr(o, "get_data"):
+                            o.get_data()
+                        got = " ".join(sorted(c for (oid, c) in calls if oid == n)) or "-"
+                    except Exception as e:  # noqa: BLE001
+                        got = "EXC:" + type(e).__name__
+                    add("trace %s %d %d %s" % (loc, n, g, " ".join(c10.canon_ref(v))), got,
+                        ("trace", dict(base, objid=n)), (lambda t: " ".join(sorted(t.split(" ")))))
             if wr.enc_id is not None:
                 try:
                     got = " ".join(c10.canon_impl(doc.getobj(wr.enc_id)))
